@@ -262,22 +262,26 @@ func checkOptions(r *evid.Run, layer string, docs []int, want func(s *optState) 
 			}
 		}()
 	}
-	res, err := tlcrun.Run(tlcrun.Opts{SpecDir: specDir, Module: "MC_Opt", Cfg: cfg, Timeout: timeout, Dump: true},
-		func(st *tla.State) error {
-			if s := optStateOf(st); s != nil && want(s) {
-				ch <- s
-			}
-			return nil
-		})
-	if err != nil || res.Violated != "" || res.ErrorText != "" || res.Dumped != res.Distinct {
-		close(ch)
-		wg.Wait()
-		r.Broken("TLC MC_Opt/%s: %v %s %s\n%s", cfg, err, res.Violated, res.ErrorText, tail(res))
-		return
+	// the bounded option sequences, then every configuration record there is (each through its canonical sequence):
+	// the configuration of a sequence of any length is one of them (CfgSpaceClosed)
+	for _, cfg := range []string{cfg, "MC_Opt_cfgs.cfg"} {
+		res, err := tlcrun.Run(tlcrun.Opts{SpecDir: specDir, Module: "MC_Opt", Cfg: cfg, Timeout: timeout, Dump: true},
+			func(st *tla.State) error {
+				if s := optStateOf(st); s != nil && want(s) {
+					ch <- s
+				}
+				return nil
+			})
+		if err != nil || res.Violated != "" || res.ErrorText != "" || res.Dumped != res.Distinct {
+			close(ch)
+			wg.Wait()
+			r.Broken("TLC MC_Opt/%s: %v %s %s\n%s", cfg, err, res.Violated, res.ErrorText, tail(res))
+			return
+		}
+		r.Count("states", res.Distinct)
+		r.Count("transitions", res.Generated)
+		fmt.Printf("model MC_Opt/%s: %d distinct states, %d generated, %.1fs\n", cfg, res.Distinct, res.Generated, res.Wall.Seconds())
 	}
-	r.Count("states", res.Distinct)
-	r.Count("transitions", res.Generated)
-	fmt.Printf("model MC_Opt/%s: %d distinct states, %d generated, %.1fs\n", cfg, res.Distinct, res.Generated, res.Wall.Seconds())
 	// beyond the bound: behaviours sampled by TLC (-simulate), 5 to 9 options from the full alphabet
 	num := 400
 	if r.Tier == "thorough" {
